@@ -70,7 +70,9 @@ def ready(pid):
 # third extension of tie C (DESIGN 12.18): what is additionally stated of the code text, per property
 EXTRA = {
  "C01": " Third extension of tie C: the constructors and the operator dispatch (Timeline.__or__ / __and__ / __sub__ / __invert__, _flatten_sources, the __init__ of every node class, every _is_mask, Interval.__post_init__) regenerated from the source text (`C01_source_or_and_dispatch`, `C01_source_is_mask`, `C01_source_union_ctor_is_or`, ...).",
- "C06": " `is_mask_is_source`: the model's mask flag is the one the regenerated _is_mask definitions of all classes compute.",
+ "C03": " Tie C: the code that orders results regenerated from the source text — Union.fetch's merge keys, MemoryTimeline.fetch, the store's sort key, the reverse pager of recurring patterns (`C03_source_*`).",
+ "C05": " Tie C: the code locality rests on regenerated from the source text — the clip of Timeline.__getitem__, the widening of _Buffered.fetch, the look-back of RecurringPattern._fetch_forward and its reverse pager (`C05_source_*`).",
+ "C06": " `C06_source_intersection_is_model` (Intersection._sweep as the code has it); `is_mask_is_source`: the model's mask flag is the one the regenerated _is_mask definitions of all classes compute.",
  "C07": " RecurringPattern.__init__ (seven fragments tiling its body) regenerated from the source text: `src_init_rule_accepted`, `g_rp_init_eq`.",
  "C08": " The public fetch() dispatcher regenerated from the source text (`g_recur_fetch_eq`).",
  "C09": " CachedTimeline.__init__ and _get_key regenerated from the source text (`g_cached_init_is_cinit`, `g_cache_get_key_model`).",
